@@ -4,8 +4,8 @@ import numpy as np
 from harness import common as C
 from harness import zoo as Z
 
-ANCHORS = []
-MODELS = []
+ANCHORS = ["T7pipe"]
+MODELS = ["Pipe", "PipeCase"]
 RULE = ("pairs of fits on re-laid-out copies of the same numbers: all dimension orders, random feature and sample permutations, partitions of the "
         "features into Dataset variables / list items, other sample_name/feature_name strings, for every model class (order-dependent methods "
         "exempt from sample permutation only); non-trivial: >= 3 samples, >= 3 features, spectrum with a gap; distinct by input hash")
@@ -275,6 +275,8 @@ def run(ctx):
     run_single(ctx, rng, ctx.n(21, 420))
     run_two_sample_dims(ctx, rng, ctx.n(12, 240))
     run_cross(ctx, rng, ctx.n(8, 200))
+    from harness import ren
+    ren.run(ctx, "C07", ctx.n(120, 1200))
     ctx.oblige("oracle:layout and naming invariance on every model class", "oracle", not ctx.violations)
 
 
